@@ -363,6 +363,9 @@ func (e *Effects) mustIns(ins ssa.Instruction, label string) bool {
 // Must reports that executing ins (a call or deferred call; not a go statement) always has the effect.
 func (e *Effects) Must(ins ssa.Instruction, label string) bool {
 	e.compute()
+	if _, isDefer := ins.(*ssa.Defer); isDefer {
+		return false // the deferred call is an event at function exit, not here
+	}
 	return e.mustIns(ins, label)
 }
 
@@ -370,6 +373,9 @@ func (e *Effects) Must(ins ssa.Instruction, label string) bool {
 func (e *Effects) May(ins ssa.Instruction, label string) bool {
 	e.compute()
 	if _, isGo := ins.(*ssa.Go); isGo {
+		return false
+	}
+	if _, isDefer := ins.(*ssa.Defer); isDefer {
 		return false
 	}
 	for _, l := range e.Direct(ins) {
